@@ -322,13 +322,18 @@ class spawn(SpawnBase):
         and SIGINT). '''
 
         self.flush()
-        with _wrap_ptyprocess_err():
-            # PtyProcessError may be raised if it is not possible to terminate
-            # the child.
-            self.ptyproc.close(force=force)
+        try:
+            with _wrap_ptyprocess_err():
+                # PtyProcessError may be raised if it is not possible to
+                # terminate the child.
+                self.ptyproc.close(force=force)
+        finally:
+            # ptyprocess closes the descriptor before it tries to terminate
+            # the child, so the number must not be kept even if that fails:
+            # it may already belong to another file.
+            self.child_fd = -1
+            self.closed = True
         self.isalive()  # Update exit status from ptyproc
-        self.child_fd = -1
-        self.closed = True
 
     def isatty(self):
         '''This returns True if the file descriptor is open and connected to a
